@@ -567,8 +567,11 @@ func (x *explorer) run(workers int) stats {
 				if res.finish {
 					st.FinishedSt++
 				}
-				if len(seen)%40000 == 0 {
-					x.r.Sample(map[string]interface{}{"config": x.cfg.String(), "events": pathStrings(nn.path), "result_of_last": res.label, "submissions": res.nsub})
+				if !sampled[res.label] && len(nn.path) >= 3 {
+					// one really explored case per distinct outcome (ev keeps the first 8)
+					sampled[res.label] = true
+					x.r.Sample(map[string]interface{}{"config": x.cfg.String(), "events_from_decided_state": pathStrings(nn.path), "result_of_last_event": res.label,
+						"submissions": res.nsub, "finished": res.finish, "members_with_latest_message_correct": res.h.numLatest()})
 				}
 			}
 		}
